@@ -36,7 +36,7 @@ func (w *Worker) start() error {
 	}
 	w.errFile = f
 	cmd := exec.Command(os.Args[0], "-test.run", w.runRegex, "-test.count=1", "-test.timeout=0")
-	cmd.Env = append(os.Environ(), "VERIF_WORKER=1", "VERIF_OUT=")
+	cmd.Env = append(os.Environ(), "VERIF_WORKER=1", "VERIF_OUT=", "GOMAXPROCS=4")
 	cmd.Stderr = f
 	in, err := cmd.StdinPipe()
 	if err != nil {
@@ -134,8 +134,30 @@ func minInt(a, b int) int {
 	return b
 }
 
-// Do sends one input. died=true means the worker process terminated while decoding it.
+// InfraDeaths counts worker deaths that were not memory exhaustion (never reported as violations).
+var InfraDeaths int
+
+// Do sends one input. died=true means the worker process terminated with a fatal out-of-memory
+// error while decoding it. Deaths for any other reason (thread creation failure under load, kill)
+// are infrastructure noise: the input is retried in a fresh worker and, if that keeps happening,
+// err is set and nothing is concluded about the input.
 func (w *Worker) Do(cmdWord, kind string, input []byte) (o Outcome, attr string, died bool, deathMsg, deathSite string, err error) {
+	for try := 0; try < 3; try++ {
+		o, attr, died, deathMsg, deathSite, err = w.do1(cmdWord, kind, input)
+		if err != nil || !died {
+			return
+		}
+		if strings.Contains(deathMsg, "out of memory") || strings.Contains(deathMsg, "cannot allocate") {
+			return
+		}
+		InfraDeaths++
+	}
+	err = fmt.Errorf("worker died 3 times without an out-of-memory error: %s", deathMsg)
+	died = false
+	return
+}
+
+func (w *Worker) do1(cmdWord, kind string, input []byte) (o Outcome, attr string, died bool, deathMsg, deathSite string, err error) {
 	if w.cmd == nil {
 		if err = w.start(); err != nil {
 			return
